@@ -59,7 +59,7 @@ WorldOf == [s \in NodeStates |-> World(s)]       \* (a constant: evaluated once)
 
 \* state of the DKG state machine of the target chain, as far as it decides handler paths:
 \* isValidStateChange(current, Proposed) holds from Fresh and from Complete (a migrated running chain)
-AdmitsProposal(s) == s \in {"fresh", "running"}
+AdmitsProposal(s) == s \in {"fresh", "running"}       \* (the bystander chain always runs: it always admits one)
 
 -----------------------------------------------------------------------------
 (* lock names and operations of a program                                    *)
@@ -145,7 +145,7 @@ DKGPacketOps(nsv, s, c) ==
         ELSE CASE c.body \in {"dkgNilInner", "dkgNoMeta"} -> <<Panic>>
                [] c.body = "dkgWithMeta" -> <<Acq("dkg", "W", FALSE), Rel("dkg"), Rel("dkg"), Ret("reject")>>
                \* DBState.Proposed reads terms.Leader.Address once the state change is admissible
-               [] c.body = "proposalNoLeader" /\ c.id = Target /\ AdmitsProposal(nsv) -> <<Panic>>
+               [] c.body = "proposalNoLeader" /\ ((c.id = Target /\ AdmitsProposal(nsv)) \/ c.id = Bystander) -> <<Panic>>
                [] OTHER -> <<Rel("dkg"), Ret("reject")>>)
 
 BroadcastOps(s, c) ==
